@@ -325,7 +325,10 @@ func OracleC14(o *Outcome) []Violation {
 	}
 	if o.Verdict {
 		vs = append(vs, v(P, "periodic-source-passed", "verdict true on a %s stream", o.Cfg.Stream.Kind))
-	} else if o.ErrNil {
+	} else if o.ErrNil && o.Cfg.Workflow != WSingle {
+		// SingleDetect reports a failed poker test as (false, nil): C11 defines
+		// its result that way and C14 only asks that it "is rejected", so a
+		// nil error is not held against the single-shot detection.
 		vs = append(vs, v(P, "false-without-error", "verdict false with nil error"))
 	}
 	return vs
